@@ -40,7 +40,7 @@ def _bounded_child(Dm, tier, seed, conn):
         conn.send(("ok", Dm.bounded(tier, seed)))
     except Exception as e:
         tb = traceback.extract_tb(e.__traceback__)
-        conn.send(("exc", repr(e), [(os.path.realpath(f.filename), f.lineno) for f in tb][-1:],
+        conn.send(("exc", repr(e), [(os.path.realpath(f.filename), f.lineno) for f in tb],
                    "".join(traceback.format_exception(type(e), e, e.__traceback__))[-2000:]))
     conn.close()
 
@@ -409,12 +409,21 @@ def run_check(prop, tier, seed, jobs=None):
                 # an exception raised *inside the library* while the driver exercised it is a failure of the code under
                 # test (natively reproduced); anything else is a defect of the driver -> checker crash
                 root = os.path.realpath(os.environ.get("QUCUMBER_REPO", "/repo"))
-                last = getattr(e, "last", None)
+                frames = getattr(e, "last", None) or []
+                last = frames[-1:] if frames else None
+                libs = [i for i, fr in enumerate(frames) if fr[0].startswith(root + os.sep)]
                 if last and last[0][0].startswith(root + os.sep):
                     where = "%s:%d" % (os.path.relpath(last[0][0], root), last[0][1])
                     bounded_res = {"driver": "drivers/%s" % prop, "label": "bounded", "evaluations": 1, "failures": 1,
                                    "bound": "the driver's first scenario that made the library raise",
                                    "first_failures": [("the library raised %s at %s" % (e, where), None)]}
+                elif libs and frames[-1][0].startswith(os.path.join(VERIF, "drivers") + os.sep) and libs[-1] > 0:
+                    # a callback / metric / observable of the driver, called BY the library, raised: on the unchanged tree they
+                    # never do, so the library handed them something else than the documented arguments
+                    where = "%s:%d" % (os.path.relpath(frames[libs[-1]][0], root), frames[libs[-1]][1])
+                    bounded_res = {"driver": "drivers/%s" % prop, "label": "bounded", "evaluations": 1, "failures": 1,
+                                   "bound": "the driver's first scenario in which a user function called by the library failed",
+                                   "first_failures": [("a user callback called by the library at %s raised %s (called with unexpected arguments)" % (where, e), None)]}
                 else:
                     crashes.append({"cfg": "bounded driver", "error": getattr(e, "text", None) or "".join(traceback.format_exception(type(e), e, e.__traceback__))[-2000:]})
     except ModuleNotFoundError:
@@ -456,8 +465,15 @@ def run_check(prop, tier, seed, jobs=None):
         main[0]["bounded"].append({"label": "front end G cross-check: real code on float tensors vs the contract evaluated numerically (sampled sizes and inputs)",
                                    "calls": gcalls, "mismatches": gmis, "skipped": gskip[:10]})
         if gmis:
-            conf = conf or {"calls": 0, "mismatches": []}
-            conf["mismatches"] = list(conf["mismatches"]) + gmis
+            # the real code, run on floats at sampled sizes and inputs, returned something else than the contract evaluated
+            # numerically: a concrete counterexample to the contract (it needs no model), reported as such.  (On the
+            # unchanged tree the two agree on every run; a disagreement of the *primitive models* with the library is the
+            # separate conformance sample above and stays a checker error.)
+            o = {"name": "%s/generic/real code on sampled sizes and inputs == contract (bounded)" % prop, "short": "generic-cross-check", "cfg": {"generic": "every shape"},
+                 "status": "violated", "backend": "concrete run of the real code", "detail": [list(x) for x in gmis[:3]],
+                 "witness": {"mismatches": [list(x) for x in gmis[:3]]}, "replayed": {"reproduced": True, "note": "the mismatch is itself a run of the real code"}}
+            path = oblmod.write_replay(prop, o)
+            reported.append((o, path, ""))
     wall = time.time() - t0
     ev = evidence.build(prop, tier, seed, L, main, can, obls, viol, und, reported, known_hits, dead, crashes, wall)
     evidence.write(prop, ev)
